@@ -1,6 +1,9 @@
 package prog
 
-import "strconv"
+import (
+	"sort"
+	"strconv"
+)
 
 // ---- object internal methods (8.12) -----------------------------------------------------------------
 
@@ -156,6 +159,36 @@ func (in *Interp) defineOwn(o *Obj, name string, desc *Prop, fields map[string]b
 				return false
 			}
 		}
+	}
+	if fields["value"] && o.Class == "Array" && name == "length" {
+		// 15.4.5.1 step 3: newLen = ToUint32(V), RangeError unless it equals ToNumber(V) (both
+		// conversions are observable on an object); elements at or above newLen are deleted downwards,
+		// stopping above the first one that cannot be deleted.
+		if _, isObj := desc.Value.(*Obj); isObj {
+			in.flag("array-length-from-object")
+		}
+		newLen := in.toUint32(desc.Value)
+		if float64(newLen) != in.toNumber(desc.Value) {
+			panic(in.throwError("RangeError", "Invalid array length"))
+		}
+		if !cur.Writable {
+			return sameValue(float64(newLen), cur.Value)
+		}
+		var idxs []uint32
+		for k := range o.Props {
+			if idx, ok := isArrayIndex(k); ok && idx >= newLen {
+				idxs = append(idxs, idx)
+			}
+		}
+		sort.Slice(idxs, func(i, j int) bool { return idxs[i] > idxs[j] })
+		for _, idx := range idxs {
+			if !in.deleteProp(o, strconv.FormatUint(uint64(idx), 10)) {
+				cur.Value = float64(idx) + 1
+				return false
+			}
+		}
+		cur.Value = float64(newLen)
+		return true
 	}
 	if fields["value"] {
 		cur.Value = desc.Value
